@@ -1,4 +1,4 @@
-import RnaVerif.Model.Pairs
+import RnaVerif.Model.PairUtil
 import RnaVerif.Generated.Geometry
 /-!
 # M5 — `clashfinder.find_clashes` and the report of `clashfinder.main` in exact rational arithmetic
